@@ -904,6 +904,7 @@ func goldenCalls(sum *Summary) {
 		{"obj.Id = jso.s|suffix(jso.{nokey|s2}, \"-\", jso.o.{zz|k})\nobj.Name = jso.nul|default(jso.{nul|s})\n", "S:abcxyz-5", "B:abc", []string{"mod:suffix(str:abc,str:xyz,B:-,num:5)"}},
 		{"obj.Id = jso.t|ifThen(jso.{nokey|s})|upper()\nobj.Name = jso.fl|ifThenElse(\"y\", jso.o.{name|k})|suffix(\"?\")\n", "S:ABC", "B:nm?", []string{"mod:upper(str:abc)", "mod:suffix(str:nm,B:?)"}},
 		{"probe(jso.{nokey|s}, \"lit\", 5, jso.o.k, jso.{nul|n})\nobj.Id = ident(jso.{nokey|s2}, jso.s)\nif eq(jso.{nokey|s}, \"abc\") {\nobj.Name = \"yes\"\n}\n", "S:xyz", "B:yes", []string{"cb:probe(str:abc,B:lit,B:5,num:5,num:7)", "get:ident(str:xyz,str:abc)", "cond:eq(str:abc,B:abc)"}},
+		{"probe(\"a,b\", 'c, d', jso.s, \"for x\")\nobj.Id = ident(\"wait for it, please\")\nobj.Name = jso.s|suffix(\", if \", \"z\")\n", "S:wait for it, please", "B:abc, if z", []string{"cb:probe(B:a,b,B:c, d,str:abc,B:for x)", "get:ident(B:wait for it, please)", "mod:suffix(str:abc,B:, if ,B:z)"}},
 		{"obj.Name = jso.s|upper()|suffix(\"1\")|ns::suffix(\"2\", \"3\")|bar::baz()\nobj.Id = jso.{nokey}|default(\"d\")|suffix(jso.{s2})\n", "S:dxyz", "B:ABC123", []string{"mod:upper(str:abc)", "mod:suffix(B:ABC,B:1)", "mod:ns::suffix(B:ABC1,B:2,B:3)", "mod:suffix(B:d,str:xyz)"}},
 	} {
 		c := singleJob("golden calls", Job{Prog: g.prog, doc: doc, Fail: -1})
